@@ -20,7 +20,7 @@ PROP = dict(
     level_note='Trusts: std:: containers as reference; the refused allocation throws xercesc::OutOfMemoryException; iteration order of XalanMap/'
                'XalanSet is treated as unspecified (compared as sets); operations std allows but the Xalan headers exclude by assertion are not generated.',
     design_ref='DESIGN.md section 7 (C20), 3.1, 5, 6.2',
-    runs=dict(quick=24000, thorough=1000000),
+    runs=dict(quick=64000, thorough=1000000),
     nontrivial_counter=['fault:alloc-fail'],
     rule='One evaluation = one history: one container kind, one element type, one mode (A fault-free / B with allocation faults attached to '
          'operations), knobs and 8..80 operations drawn from the run seed; executed operation by operation against the std:: model with a full '
@@ -38,6 +38,9 @@ PROP = dict(
                  'the assert()s in the Xalan headers are the documentation of the narrower contracts: the interpreter clamps every argument so that they hold; an assertion firing in the function the interpreter called is a harness error (exit 2), one firing deeper inside the library is reported as a violation',
                  'only the C locale is installed: narrow-character (transcoding) operations are exercised with ASCII text only',
                  'strings containing embedded NUL code units are not passed through the NUL-terminated-pointer comparison API'],
+    # the driver resolves the frames of a report itself through one llvm-symbolizer per worker; letting the sanitizer
+    # runtime start a symbolizer for every crashed history costs more than the histories
+    env={'ASAN_OPTIONS': 'symbolize=0'},
     shrink=dict(lists=[['ops']], minlen={'ops': 1}, ints=[['ops', '*', 'fault']]),
     shrink_budget=160,
 )
